@@ -204,7 +204,9 @@ fn concat_events(rate: f64, rng: &mut StdRng, out: &mut Vec<Value>) {
         for B in &pool {
             // (the predicate is cheap and its interesting pairs are few - same arrays, other shape: every pair, always)
             out.push(guarded("is_equal_sparsity", || json!({"name": "is_equal_sparsity", "A": enc(A), "B": enc(B), "res": A.is_equal_sparsity(B)})));
-            if rate < 1.0 && rng.gen::<f64>() >= rate { continue; }
+            // (operands with a zero dimension are few and take the early-exit paths: always)
+            let degenerate = A.m == 0 || A.n == 0 || B.m == 0 || B.n == 0;
+            if !degenerate && rate < 1.0 && rng.gen::<f64>() >= rate { continue; }
             out.push(guarded("hcat", || { let r = CscMatrix::hcat(A, B); json!({"name": "hcat", "A": enc(A), "B": enc(B), "ok": r.is_ok(), "out": r.map(|x| enc(&x)).unwrap_or(enc(&CscMatrix::zeros((0, 0))))}) }));
             out.push(guarded("vcat", || { let r = CscMatrix::vcat(A, B); json!({"name": "vcat", "A": enc(A), "B": enc(B), "ok": r.is_ok(), "out": r.map(|x| enc(&x)).unwrap_or(enc(&CscMatrix::zeros((0, 0))))}) }));
             out.push(guarded("blockdiag", || { let r = CscMatrix::blockdiag(&[A, B]); json!({"name": "blockdiag", "A": enc(A), "B": enc(B), "ok": r.is_ok(), "out": r.map(|x| enc(&x)).unwrap_or(enc(&CscMatrix::zeros((0, 0))))}) }));
